@@ -3,6 +3,9 @@
 import json, os
 ROOT = os.path.dirname(os.path.dirname(os.path.abspath(__file__)))
 claims = json.load(open(os.path.join(ROOT, "tools", "claims.json")))
+import glob
+for f in sorted(glob.glob(os.path.join(ROOT, "tools", "claims.d", "*.json"))):
+    claims.update(json.load(open(f)))
 props = [json.loads(l) for l in open(os.path.join(ROOT, "properties.jsonl"))]
 checks, na = [], []
 for p in props:
